@@ -85,7 +85,7 @@ PROPS = {
     'C17': {
         'engine': 'e4', 'module': 'gnpysim.e4_design',
         'tiers': {
-            'quick': {'tasks': 32, 'max_examples': 20, 'step_count': 8, 'shrink_seconds': 60, 'task_timeout': 1500},
+            'quick': {'tasks': 32, 'max_examples': 30, 'step_count': 8, 'shrink_seconds': 60, 'task_timeout': 1500},
             'thorough': {'tasks': 256, 'max_examples': 70, 'step_count': 12, 'shrink_seconds': 400,
                          'task_timeout': 7000},
         },
